@@ -90,11 +90,18 @@ def sig_writes(A, kind):
 
 
 def is_role(keyinfo, tag):
-    for r in keyinfo[1]:
-        t = r[0] if isinstance(r, tuple) else r
-        if t == tag:
-            return True
-    return False
+    """does the key have the role (directly, or as an element that went through a local collection)?"""
+    def has(roles):
+        for r in roles:
+            if isinstance(r, tuple) and r[0] == "via":
+                if has(r[1]):
+                    return True
+                continue
+            t = r[0] if isinstance(r, tuple) else r
+            if t == tag:
+                return True
+        return False
+    return has(keyinfo[1])
 
 
 def role_str(keyinfo):
@@ -105,7 +112,9 @@ def role_str(keyinfo):
                 out.append("nbr(%s)" % r[2])
             elif r[0] == "lookup":
                 out.append("lookup")
-            elif r[0] in ("via", "was"):
+            elif r[0] == "via":
+                out.append("via(" + role_str((None, r[1])) + ")")
+            elif r[0] == "was":
                 continue
             else:
                 out.append(str(r[0]))
@@ -114,23 +123,37 @@ def role_str(keyinfo):
     return "+".join(out) or "unknown"
 
 
+def key_binding(fact):
+    """(fid, block) where the job key of the fact was bound by an iterator step, or None"""
+    sym = fact["key"][0] if isinstance(fact.get("key"), tuple) else None
+    if isinstance(sym, tuple) and len(sym) >= 3 and sym[0] == "b":
+        return (sym[1], sym[2])
+    return None
+
+
 def connected(A, w, v):
     """are fact `v` and state write `w` on one path of the same function activation that does not
-    re-bind the job key in between (a later loop iteration is a different job)?"""
-    if w.get("fid") != v.get("fid") or w["fn"] != v["fn"]:
-        return True     # different activations: no path information, match on the key only
-    body = A.facts.body(w["fn"])
+    re-bind the job key in between (a later loop iteration is a different job)?  Facts in callees are
+    represented by their call sites in the innermost activation that contains both."""
+    run = w.get("_run") or v.get("_run")
+    if run is None:
+        return True
+    com = run.common(w, v)
+    if com is None:
+        return True     # no common activation: no path information, match on the key only
+    fid, fn, bw, bv = com
+    body = A.facts.body(fn)
+    if body is None:
+        return True
     removed = set()
-    sym = w["key"][0]
-    if isinstance(sym, tuple) and len(sym) >= 3 and sym[0] == "b" and sym[1] == w["fid"]:
-        removed.add(sym[2])
-    if w["bb"] == v["bb"]:
+    kb = key_binding(w)
+    if kb is not None and kb[0] == fid:
+        removed.add(kb[1])
+    if bw == bv:
         return True
-    a = body.reachable(w["bb"], removed - {w["bb"]})
-    if v["bb"] in a:
+    if bv in body.reachable(bw, removed - {bw}):
         return True
-    b = body.reachable(v["bb"], removed - {v["bb"]})
-    return w["bb"] in b
+    return bw in body.reachable(bv, removed - {bv})
 
 
 def elem_is_key(elem, keyinfo):
